@@ -78,6 +78,11 @@ def _pool(seed, n):
                    ("29.02.", "2023-12-31T23:00:00"), ("am 29. februar", "2019-02-27T10:00:00"), ("29.02.2023 für 2 tage", "2020-02-29T23:59:59"),
                    ("29 february 2028 at noon", "2022-04-30T18:05:00")]:
         entries.append({"t": t, "ts": tsx, "grp": "leap-day", "o": {"latent_time": True, "max_stack_depth": 10, "relative_match_len": 1.0, "scorer": "shipped"}})
+    # the same texts scored by a user's own naive-Bayes model next to the shipped one (anything memoised per rule sequence
+    # without regard to WHICH model scored it leaks from one scorer to the other)
+    for t in ["tomorrow 8pm", "May 5th at 3", "am 5. märz um 14 uhr", "monday morning 9 to 5", "heute abend", "12.12.2020"]:
+        for sc in ("shipped", "trained", "shipped"):
+            entries.append({"t": t, "ts": "2021-03-10T12:43:30", "grp": "two-models/" + t, "o": {"latent_time": True, "max_stack_depth": 10, "relative_match_len": 1.0, "scorer": sc}})
     # several labels, one of them written twice, with and without a time expression (anything that passes labels or words
     # through a set shows its dependence on the string-hash seed here)
     for t in ["#family call mom #urgent tomorrow 5pm #phone #family", "#b2 #a1 #c3 #b2 note for bob", "pay rent #home #money #home #q1 am freitag",
